@@ -88,7 +88,7 @@ theorem good_schur1 {S : State K} {A : CRS K} {pm : Array Bool} (hG : Good S A p
     (hn : A.nrows = pm.size) (hc : A.ncols = pm.size)
     (htype : S.prm.type = 1) (happ : S.prm.approxSchur = false) (U Ps : Vec K → Vec K)
     (hdet : IsUnit (toMat S.Kuu (cls pm false).length (cls pm false).length).det)
-    (hU : ∀ r, toV (cls pm false).length (U r)
+    (hU : ∀ r : Vec K, r.size = (cls pm false).length → toV (cls pm false).length (U r)
         = (toMat S.Kuu (cls pm false).length (cls pm false).length)⁻¹ *ᵥ toV (cls pm false).length r)
     (hP : ∀ r : Vec K, r.size = (cls pm true).length → S.spmv U 1 (Ps r) 0 (vclear S.np) = r)
     (f : Vec K) (hf : f.size = pm.size) :
@@ -123,7 +123,8 @@ theorem good_schur1 {S : State K} {A : CRS K} {pm : Array Bool} (hG : Good S A p
   set fp := toV pm.size f ∘ sel pm true with hfp
   have t_rhsu : toV (cls pm false).length rhsu = fu := by rw [hrhsu, hG.hx2u]; exact gather_toV pm false f _
   have t_rhsp : toV (cls pm true).length rhsp = fp := by rw [hrhsp, hG.hx2p]; exact gather_toV pm true f _
-  have t_u1 : toV (cls pm false).length u1 = Muu⁻¹ *ᵥ fu := by rw [hu1, hU, t_rhsu]
+  have s_rhsu : rhsu.size = (cls pm false).length := by rw [hrhsu, hG.hx2u]; exact gather_size pm false f _
+  have t_u1 : toV (cls pm false).length u1 = Muu⁻¹ *ᵥ fu := by rw [hu1, hU _ s_rhsu, t_rhsu]
   have t_rhsp' : toV (cls pm true).length rhsp' = fp - Mpu *ᵥ (Muu⁻¹ *ᵥ fu) := by
     rw [hrhsp', toV_spmv' (-1) 1 S.Kpu _ _ hS.pu.1 _ _ hS.pu.2.1 hS.pu.2.2, t_rhsp, t_u1]
     simp only [neg_smul, one_smul]; abel
@@ -135,12 +136,12 @@ theorem good_schur1 {S : State K} {A : CRS K} {pm : Array Bool} (hG : Good S A p
   rw [hPp, t_rhsp'] at t_S
   have t_tmp : toV (cls pm false).length (spmv 1 S.Kup p 0 (vclear S.nu)) = Mup *ᵥ toV (cls pm true).length p := by
     rw [toV_spmv' 1 0 S.Kup _ _ hS.up.1 _ _ hS.up.2.1 hS.up.2.2]; simp only [one_smul, zero_smul, add_zero]; rfl
-  rw [hU, t_tmp] at t_S
+  rw [hU _ (by rw [spmv_size'']; exact hS.up.2.1), t_tmp] at t_S
   have t_rhsu' : toV (cls pm false).length rhsu' = fu - Mup *ᵥ toV (cls pm true).length p := by
     rw [hrhsu', toV_spmv' (-1) 1 S.Kup _ _ hS.up.1 _ _ hS.up.2.1 hS.up.2.2, t_rhsu]
     simp only [neg_smul, one_smul]; abel
   have t_u2 : toV (cls pm false).length u2 = Muu⁻¹ *ᵥ (fu - Mup *ᵥ toV (cls pm true).length p) := by
-    rw [hu2, hU, t_rhsu']
+    rw [hu2, hU _ (by rw [hrhsu', spmv_size'']; exact hS.up.2.1), t_rhsu']
   -- the scattered result
   have hsc := scatter_toV pm u2 p (vclear S.n)
   rw [← hG.hp2x, ← hG.hu2x] at hsc
@@ -162,6 +163,99 @@ theorem good_schur1 {S : State K} {A : CRS K} {pm : Array Bool} (hG : Good S A p
             - Mpu *ᵥ (Muu⁻¹ *ᵥ (Mup *ᵥ toV (cls pm true).length p))) := by abel
       _ = Mpu *ᵥ (Muu⁻¹ *ᵥ fu) + (fp - Mpu *ᵥ (Muu⁻¹ *ᵥ fu)) := by rw [← this]
       _ = fp := by abel
+
+/-- **block upper-triangular solve** (`type = 2`): with right-inverse inner solves the result `x = (u, p)` satisfies
+`S p = f_p` (matrix-free `S`) and `Kuu u + Kup p = f_u`. -/
+theorem good_schur2 {S : State K} {A : CRS K} {pm : Array Bool} (hG : Good S A pm) (hA : A.WF)
+    (hn : A.nrows = pm.size) (hc : A.ncols = pm.size)
+    (htype : S.prm.type = 2) (U Ps : Vec K → Vec K)
+    (hU : ∀ r : Vec K, r.size = (cls pm false).length →
+      (U r).size = (cls pm false).length ∧ spmv 1 S.Kuu (U r) 0 (vclear S.nu) = r)
+    (hP : ∀ r : Vec K, r.size = (cls pm true).length →
+      (Ps r).size = (cls pm true).length ∧ S.spmv U 1 (Ps r) 0 (vclear S.np) = r)
+    (f : Vec K) :
+    ∃ x, S.apply U Ps f = some x ∧
+      S.spmv U 1 (spmv 1 S.x2p x 0 (vclear S.np)) 0 (vclear S.np) = spmv 1 S.x2p f 0 (vclear S.np) ∧
+      spmv 1 S.Kup (spmv 1 S.x2p x 0 (vclear S.np)) 1
+          (spmv 1 S.Kuu (spmv 1 S.x2u x 0 (vclear S.nu)) 0 (vclear S.nu))
+        = spmv 1 S.x2u f 0 (vclear S.nu) := by
+  have hS := hG.shapes hA hn hc
+  unfold State.apply
+  have h21 : ¬ (2 : Nat) = 1 := by omega
+  simp only [htype, h21, if_true, if_false]
+  refine ⟨_, rfl, ?_⟩
+  set rhsu := spmv 1 S.x2u f 0 (vclear S.nu) with hrhsu
+  set rhsp := spmv 1 S.x2p f 0 (vclear S.np) with hrhsp
+  set p := Ps rhsp with hp
+  set rhsu' := spmv (-1) S.Kup p 1 rhsu with hrhsu'
+  set u := U rhsu' with hu
+  set x := spmv 1 S.p2x p 1 (spmv 1 S.u2x u 0 (vclear S.n)) with hx
+  have s_rhsu : rhsu.size = (cls pm false).length := by rw [hrhsu, hG.hx2u]; exact gather_size pm false f _
+  have s_rhsp : rhsp.size = (cls pm true).length := by rw [hrhsp, hG.hx2p]; exact gather_size pm true f _
+  have s_rhsu' : rhsu'.size = (cls pm false).length := by rw [hrhsu', spmv_size'']; exact hS.up.2.1
+  obtain ⟨s_p, hPp⟩ := hP rhsp s_rhsp
+  obtain ⟨s_u, hUu⟩ := hU rhsu' s_rhsu'
+  rw [← hp] at s_p hPp
+  rw [← hu] at s_u hUu
+  have hsc := scatter_toV pm u p (vclear S.n)
+  rw [← hG.hp2x, ← hG.hu2x, ← hx] at hsc
+  obtain ⟨hxu, hxp⟩ := hsc
+  have gu : spmv 1 S.x2u x 0 (vclear S.nu) = u := by
+    apply vec_eq_of_toV (cls pm false).length (by rw [hG.hx2u]; exact gather_size pm false x _) s_u
+    rw [hG.hx2u, gather_toV, hxu]
+  have gp : spmv 1 S.x2p x 0 (vclear S.np) = p := by
+    apply vec_eq_of_toV (cls pm true).length (by rw [hG.hx2p]; exact gather_size pm true x _) s_p
+    rw [hG.hx2p, gather_toV, hxp]
+  rw [gu, gp, hUu]
+  refine ⟨hPp, ?_⟩
+  apply vec_eq_of_toV (cls pm false).length (by rw [spmv_size'']; exact hS.up.2.1) s_rhsu
+  rw [toV_spmv' 1 1 S.Kup _ _ hS.up.1 _ _ hS.up.2.1 hS.up.2.2, hrhsu',
+    toV_spmv' (-1) 1 S.Kup _ _ hS.up.1 _ _ hS.up.2.1 hS.up.2.2]
+  simp only [neg_smul, one_smul]
+  abel
+
+/-- **the extracted blocks reassemble to `K`**: scattering `Kuu, Kup, Kpu, Kpp` back through `u2x`, `p2x` (and
+gathering through `x2u`, `x2p`) gives the original matrix, for every mask -/
+theorem good_reassemble {S : State K} {A : CRS K} {pm : Array Bool} (hG : Good S A pm) (hA : A.WF)
+    (hn : A.nrows = pm.size) (hc : A.ncols = pm.size) :
+    toMat S.u2x pm.size (cls pm false).length * toMat S.Kuu (cls pm false).length (cls pm false).length
+        * toMat S.x2u (cls pm false).length pm.size
+      + toMat S.u2x pm.size (cls pm false).length * toMat S.Kup (cls pm false).length (cls pm true).length
+        * toMat S.x2p (cls pm true).length pm.size
+      + toMat S.p2x pm.size (cls pm true).length * toMat S.Kpu (cls pm true).length (cls pm false).length
+        * toMat S.x2u (cls pm false).length pm.size
+      + toMat S.p2x pm.size (cls pm true).length * toMat S.Kpp0 (cls pm true).length (cls pm true).length
+        * toMat S.x2p (cls pm true).length pm.size
+      = toMat A pm.size pm.size := by
+  rw [Matrix.ext_iff_mulVec]
+  intro v
+  symm
+  rw [hG.hu2x, hG.hp2x, hG.hx2u, hG.hx2p, hG.hKuu, hG.hKup, hG.hKpu, hG.hKpp,
+    toMat_extractBlock A pm hA hn hc false false, toMat_extractBlock A pm hA hn hc false true,
+    toMat_extractBlock A pm hA hn hc true false, toMat_extractBlock A pm hA hn hc true true]
+  simp only [Matrix.add_mulVec, ← Matrix.mulVec_mulVec, toMat_gather_mulVec]
+  set M := toMat A pm.size pm.size
+  set wu := M.submatrix (sel pm false) (sel pm false) *ᵥ (v ∘ sel pm false)
+  set wup := M.submatrix (sel pm false) (sel pm true) *ᵥ (v ∘ sel pm true)
+  set wpu := M.submatrix (sel pm true) (sel pm false) *ᵥ (v ∘ sel pm false)
+  set wp := M.submatrix (sel pm true) (sel pm true) *ᵥ (v ∘ sel pm true)
+  apply blocks_mulVec pm M
+  · funext k
+    have a1 := congrFun (scatter_comp_same pm false wu) k
+    have a2 := congrFun (scatter_comp_same pm false wup) k
+    have a3 := congrFun (scatter_comp_other pm true false (by decide) wpu) k
+    have a4 := congrFun (scatter_comp_other pm true false (by decide) wp) k
+    simp only [Function.comp_apply, Pi.zero_apply] at a1 a2 a3 a4
+    simp only [Function.comp_apply, Pi.add_apply, a1, a2, a3, a4, add_zero]
+    rfl
+  · funext k
+    have a1 := congrFun (scatter_comp_other pm false true (by decide) wu) k
+    have a2 := congrFun (scatter_comp_other pm false true (by decide) wup) k
+    have a3 := congrFun (scatter_comp_same pm true wpu) k
+    have a4 := congrFun (scatter_comp_same pm true wp) k
+    simp only [Function.comp_apply, Pi.zero_apply] at a1 a2 a3 a4
+    simp only [Function.comp_apply, Pi.add_apply, a1, a2, a3, a4, zero_add]
+    rfl
 
 end
 
